@@ -12,7 +12,7 @@
 (* let max_ack_delay pass, send one ACK per space that received something, let max_ack_delay pass again -- so that    *)
 (* every run is judged at and after its deadlines.                                                                    *)
 EXTENDS AckPolicy, Json
-CONSTANTS Depth, GSpaces, MaxPn, MaxRcvd, GDts, Ops, Atomic, Script
+CONSTANTS Depth, GSpaces, MaxPn, MaxRcvd, GDts, Ops, Atomic, Script, Els
 VARIABLE hist
 
 ScriptNone == <<>>
@@ -20,6 +20,8 @@ ScriptNone == <<>>
 ScriptSeq == <<{"r"}, {"r", "a"}, {"r", "a", "p"}, {"r", "a", "p", "g"}, {"a", "p", "g", "s", "r"}, {"r", "a", "p", "g", "s"},
                {"r", "a", "p", "g", "s"}, {"r", "a", "p", "g", "s"}, {"r", "a", "p", "g", "s"}>>
 \* the race window: an arrival at every point of assembling one packet
+\* the three spaces: arrivals, a discard, one packet with an ACK frame per space
+ScriptSpaces == <<{"r"}, {"r", "a", "d"}, {"p", "r", "a"}, {"g", "a"}, {"s", "p"}, {"g", "s", "t", "p"}, {"s", "g"}>>
 ScriptRace == <<{"r"}, {"r", "a"}, {"p", "r"}, {"r", "g", "p"}, {"r", "g", "s"}, {"r", "s", "g"}, {"s", "r", "a"}, {"s", "a"}>>
 B(x) == IF x THEN 1 ELSE 0
 H(x) == hist' = Append(hist, x)
@@ -40,7 +42,7 @@ GenInit == Init /\ hist = <<>>
 GenNext ==
   /\ Steps < Depth
   /\ \/ /\ Allowed("r") /\ Free /\ NRcvd < MaxRcvd
-        /\ \E s \in GSpaces \cap Live : \E p \in Cand(s) : \E el \in BOOLEAN :
+        /\ \E s \in GSpaces \cap Live : \E p \in Cand(s) : \E el \in Els :
              Rcvd(s, p, el, D_Obs') /\ H(<<"r", s, p, B(el)>>)
      \/ /\ Allowed("a") /\ Free
         /\ \E dt \in {x \in AdvSet : x > 0} : Advance(dt, D_Obs') /\ H(<<"a", dt>>)
